@@ -72,9 +72,20 @@ func main() {
 	canary := flag.String("canary", "", "apply the named self-test canary of -prop as an overlay")
 	edits := flag.String("edits", "", "JSON file with a list of {file,find,repl} edits applied as an overlay")
 	list := flag.Bool("list", false, "list properties and canaries")
+	mkInv := flag.Bool("mk-inventory", false, "print the name inventory of -repo (see norm.go)")
 	noEvidence := flag.Bool("no-evidence", false, "write evidence under a scratch dir (used by self-tests)")
 	flag.Parse()
 
+	if *mkInv {
+		inv, err := MakeInventory(*repo)
+		if err != nil {
+			fmt.Fprintf(os.Stderr, "lfscheck: %v\n", err)
+			os.Exit(2)
+		}
+		b, _ := json.MarshalIndent(inv, "", " ")
+		fmt.Println(string(b))
+		return
+	}
 	if *list {
 		var ids []string
 		for id := range registry {
@@ -120,6 +131,7 @@ func main() {
 					}
 				}()
 				c := &Ctx{P: p, Prop: def.ID, Tier: "quick"}
+				noteNorm(c, p)
 				def.Run(c)
 				vd, _ := os.MkdirTemp("", "lfscheck-scratch-")
 				defer os.RemoveAll(vd)
@@ -193,6 +205,7 @@ func main() {
 		os.Exit(2)
 	}
 	c := &Ctx{P: p, Prop: def.ID, Tier: *tier}
+	noteNorm(c, p)
 	def.Run(c)
 
 	extra := map[string]interface{}{}
@@ -239,4 +252,24 @@ func main() {
 		os.RemoveAll(vd)
 	}
 	os.Exit(code)
+}
+
+// noteNorm records what the normalisation pre-pass (norm.go) did to the analysed source.
+func noteNorm(c *Ctx, p *Prog) {
+	if p.Norm == nil {
+		return
+	}
+	for _, r := range p.Norm.Renamed {
+		c.Note("normalised before analysis: renamed back %s", r)
+	}
+	for _, r := range p.Norm.Inlined {
+		c.Note("normalised before analysis: expanded new helper %s", r)
+	}
+	for _, r := range p.Norm.Skipped {
+		c.Note("normalisation: new function left as it is: %s", r)
+	}
+	if p.Norm.Failed != "" {
+		c.Note("normalisation dropped: %s", p.Norm.Failed)
+		fmt.Fprintf(os.Stderr, "lfscheck: %s\n", p.Norm.Failed)
+	}
 }
